@@ -26,7 +26,7 @@ def hostile(rng, n=None):
 
 def make_preamble(rng, nonce):
     """a valid Python snippet (no import / class statements) carrying the nonce and hostile characters"""
-    kind = rng.choice(["comment", "assign", "multi", "tq", "func", "rawstr", "ws", "empty", "none", "comment_ws", "tq_blank", "indented", "rawsep"])
+    kind = rng.choice(["comment", "assign", "multi", "tq", "func", "rawstr", "ws", "empty", "none", "comment_ws", "tq_blank", "indented", "rawsep", "decorated"])
     if kind == "none":
         return None, kind
     if kind == "empty":
@@ -43,6 +43,10 @@ def make_preamble(rng, nonce):
         if form == "triple":
             return f'{nonce} = """x{seps}\ny{seps}"""', kind
         return f"# {nonce} c{seps.replace(chr(0x0c), '')}d", kind
+    if kind == "decorated":
+        # the first character of the argument is one that command-line conventions give a meaning to ('@' response files)
+        return rng.choice([f"@(lambda f: f)\ndef helper_{nonce[-4:]}():\n    # {nonce}\n    return 1",
+                           f"@staticmethod\ndef helper_{nonce[-4:]}():\n    return {nonce!r}"]), kind
     if kind == "tq_blank":
         # interior whitespace-only lines (inside a literal and between statements) and leading indentation inside the literal
         return f'{nonce} = """first\n   \n\tsecond\n    indented\n\t\n"""\n  \nY_{nonce[-4:]} = 1', kind
@@ -79,6 +83,8 @@ def gen_case(rng, i):
         if fname in (".", "..") or "*" in fname or "?" in fname:
             fname = "in"
         fname = fname + ".json"
+    if rng.random() < 0.08 and not fname.startswith("@"):
+        fname = "@" + fname
     samples = rng.choice([[{"a": 1}], [{"a": 1, "b": {"c": "x"}}], [{"a": [1], "b": "1", "d": None}, {"a": [], "b": "2"}], [{"s": "text", "t": "2018-01-02"}]])
     o = {"framework": rng.choice(FWS), "structure": rng.choice([None, "nested"]), "dkr": None, "extra": []}
     if rng.random() < 0.3:
@@ -88,6 +94,9 @@ def gen_case(rng, i):
         if o["extra"][1].startswith("-"):
             o["extra"][1] = "f" + o["extra"][1]
     case = {"i": i, "nonce": nonce, "preamble": pre, "pkind": kind, "fname": fname, "samples": samples, "o": o}
+    # the value as an argument of its own ('--preamble', VALUE) instead of '--preamble=VALUE': its first character is then the first
+    # character of an argv element (not possible for values starting with '-', which argparse would read as an option)
+    case["split_arg"] = bool(pre) and not pre.startswith("-") and (kind == "decorated" or rng.random() < 0.3)
     if i % 5 == 3:
         other = "EARLIER_" + digest([i, "other"])[:10]
         case["reuse_after"] = {"fw": rng.choice(FWS), "preamble": rng.choice([f"# {other}", f"{other} = 1", f'{other} = """x"""\nY = 2']), "nonce": other}
@@ -103,7 +112,7 @@ def argv_of(case, with_preamble=True):
         argv += ["--dkr"] + o["dkr"]
     argv += o["extra"]
     if with_preamble and case["preamble"] is not None:
-        argv += [f"--preamble={case['preamble']}"]
+        argv += ["--preamble", case["preamble"]] if case.get("split_arg") else [f"--preamble={case['preamble']}"]
     return argv
 
 
@@ -146,6 +155,18 @@ def run_one(case, tmp):
     r0 = None
     if case["pkind"] in ("ws", "empty") or (case.get("reuse_after") and case["pkind"] == "none"):
         r0 = run_bounded([PY, "-m", "json_to_models"] + argv_of(case, with_preamble=False), timeout=300, capture_output=True, cwd=d, env=env)
+    if r.returncode != 0 and not getattr(r, "timed_out", False) and not case.get("reuse_after"):
+        # the command failed: is it the hostile text that made it fail?  Twin command lines that differ from this one only in the
+        # preamble (a plain comment, passed as --preamble=...) and, for a file name starting with '@', in spelling the same file './@...'
+        twin = dict(case, preamble=f"# {case['nonce']}", split_arg=False)
+        rt = run_bounded([PY, "-m", "json_to_models"] + argv_of(twin), timeout=300, capture_output=True, cwd=d, env=env)
+        what = "preamble"
+        if rt.returncode != 0 and case["fname"].startswith("@") and not getattr(rt, "timed_out", False):
+            twin["fname"] = "./" + case["fname"]
+            rt = run_bounded([PY, "-m", "json_to_models"] + argv_of(twin), timeout=300, capture_output=True, cwd=d, env=env)
+            what = "preamble and the spelling of the file name ('./@...' instead of '@...')"
+        if rt.returncode == 0 and not getattr(rt, "timed_out", False):
+            r.twin_ok = what
     return argv, r, r0
 
 
@@ -159,6 +180,9 @@ def judge(case, argv, r, r0):
         return None, "case timeout"
     if r.returncode != 0:
         err = r.stderr.decode("utf-8", "replace").strip().split("\n")[-1]
+        if getattr(r, "twin_ok", None):
+            W("cli-fails-on-hostile-argv", f"exit status {r.returncode} ({err[:200]}), no module; the command line differing only in the {r.twin_ok} succeeds")
+            return wit, None
         return None, f"CLI failed: {err[:200]}"
     out = r.stdout.decode("utf-8", "replace")
     try:
